@@ -574,6 +574,10 @@ def check(ctx, rep):
 
     # a changeset that is produced but never reaches the run-wide record is an on-disk change without a reported diff
     rule_accumulate_all(ctx, rep)
+    from .c10 import rule_iter_no_resume
+
+    # every file a worker has rewritten has its changeset in the report: the merge loop must see every element of the map iterator
+    rule_iter_no_resume(ctx, rep)
     from .c15 import rule_model_faithful, rule_relative_path, rule_report_complete
 
     # 'a file without a changeset is unchanged, every changeset names a file that did change': what the pipelines record must reach the
